@@ -430,7 +430,9 @@ func gen(t *rapid.T) Case {
 	}
 	// a shared formData parameter comes back from FromV3 as a definition (known open finding):
 	// excluded by construction unless C17_SHAREDFORM=1
-	if os.Getenv("C17_SHAREDFORM") != "" && g.chance(3, "sharedform") {
+	// (round 11: a small share of the cases has one all the same, because the v2 -> v3 leg is checked
+	// before the round trip reaches the known finding)
+	if (os.Getenv("C17_SHAREDFORM") != "" && g.chance(3, "sharedform")) || (os.Getenv("C17_SHAREDFORM") == "" && g.chance(8, "sharedformsome")) {
 		p := g.prim()
 		p["name"], p["in"] = "note", "formData"
 		if g.chance(2, "sfreq") {
@@ -575,6 +577,11 @@ func gen(t *rapid.T) Case {
 						params = append(params, M{"$ref": "#/parameters/noteParam"})
 						g.feats["shared-ref"] = true
 						g.feats["shared-form-ref"] = true
+						if g.chance(2, "inlinenamedlikekey") {
+							// an inline field called like the shared parameter's key (its name is "note")
+							params = append(params, M{"name": "noteParam", "in": "formData", "type": "integer", "required": true})
+							g.feats["form-field-named-like-shared-key"] = true
+						}
 					}
 				}
 			}
